@@ -536,6 +536,22 @@ func c02Extra(tier string, rng *rand.Rand, res *Result) {
 	run("uint8", 0, 255, all)
 	run("int16", -32768, 32767, tags16)
 	run("uint16", 0, 65535, tags16)
+	// long strings (implementation only: wire spec + round trip), around 64 KiB, 100 KiB, 1 MiB and beyond
+	for _, l := range []int{65535, 65536, 102399, 102400, 102401, 300000, 1 << 20, 3<<20 + 1} {
+		s := bytes.Repeat([]byte{'a', 0, 0x80, 'z'}, l/4+1)[:l]
+		for _, tag := range []int{0, 15, 255} {
+			c := c02Case{WT: "string", S: s, Tag: tag, RT: "string", RTag: tag, Req: true, Suffix: B{0x0b}}
+			fs := c02Run(&c)
+			count++
+			for _, f := range fs {
+				if !fail[f.Sig] {
+					fail[f.Sig] = true
+					f.Replay = map[string]interface{}{"long_string_len": l, "tag": tag}
+					res.Failures = append(res.Failures, f)
+				}
+			}
+		}
+	}
 	res.Stats["exhaustive_grid_cases_impl_only"] = count
 	res.Evaluations += count
 	c02Concurrent(tier, res, fail)
